@@ -43,7 +43,7 @@ func TestC11_Programs(t *testing.T) {
 	rec := stat.For("C11")
 	rec.Rule("generated concurrent programs: G in [2,16] goroutines x K in [5,40] operations over one loaded database, operations drawn from SearchUniversal / cached search / monitored search / InvalidateCache / CleanupExpiredCache / GetCacheStats with random Gosched points and GOMAXPROCS in {2,4,16}; built with -race. Oracle: no race report; every search equals the answer computed sequentially beforehand (bitwise); monitor totals equal the number of monitored searches. Non-trivial = at least two goroutines issued a cached/monitored search for the same (query, options).")
 	rapid.Check(t, func(t *rapid.T) {
-		cmds, _ := gen.DB(t, gen.CmdOpts{Platforms: true}, []int{0, 0, 3, 8, 1})
+		cmds, _ := gen.DB(t, gen.CmdOpts{Platforms: true}, []int{1, 1, 3, 8, 1}) // empty and one-entry databases too
 		db := gen.Load(t, cmds)
 		toks := gen.Tokens(cmds)
 		if len(toks) == 0 {
